@@ -69,7 +69,8 @@ EDR_B = "24-byte symbolic stream, 3 scripted reads of 0..=8 bytes each (0 = temp
 for n, cap, ff in (("edr_refill_cap16_len16", 16, False), ("edr_first_fill_cap16_len8", 16, True), ("edr_refill_cap8_len16", 8, False),
                    ("edr_first_fill_cap0_len1", 0, True), ("edr_refill_cap16_len5", 16, False),
                    ("edr_refill_cap16_len16_at_6_8", 16, False), ("edr_refill_cap8_len16_at_4_8", 8, False)):
-    add(n, ["C04", "C05", "C17"], "edr.rs", "U",
+    # the two symbolic-cursor refill units also serve C03: every reported offset is current_offset(), which a refill must not move (seed C03-s4)
+    add(n, ["C04", "C05", "C17"] + (["C03"] if n in ("edr_refill_cap16_len16", "edr_refill_cap16_len5") else []), "edr.rs", "U",
         "ensure_data_read: allocation <= max(old, requested); position fixed, buffered window == stream at every absolute position, only extended, no byte lost/duplicated, "
         "Ok(true) => bytes present, Ok(false) only after the source returned 0" + (" (first fill)" if ff else ""),
         EDR_B + ", allocation %d" % cap, timeout_s=600, mem_gb=6, stubs=IO_HASH,
@@ -279,7 +280,7 @@ QUICK_KEEP = {
          "c16w_int_w0_c4", "c09_uint_w2_c4", "c09_binary_w1", "c16w_float", "c09_width_dispatch"],
  "C02": ["c16_arr_to_u64", "c16_arr_to_i64", "c16_arr_to_f64", "c16w_float"] + ["c16w_uint_w0_c%d" % c for c in (1, 2, 4, 8)] + ["c16w_int_w0_c%d" % c for c in (1, 2, 4, 8)]
         + ["c11_validate_p1_c1", "c11_validate_p2_c2", "c11_validate_p3_c3", "c11_vtree_root_a_uk", "c11_vtree_root_a_b_uuu", "doc_f4_f8"],
- "C03": ["hdr_flat_full", "hdr_flat_trunc", "doc_u3_u1", "doc_i2_i0", "doc_f4_f8", "doc_s1_b3", "doc_b0_u8", "cut_u3_b2_at4", "cut_u3_b2_at5", "hdr_tree_first_l3", "hdr_tree_first_void"],
+ "C03": ["hdr_flat_full", "hdr_flat_trunc", "doc_u3_u1", "doc_i2_i0", "doc_f4_f8", "doc_s1_b3", "doc_b0_u8", "cut_u3_b2_at4", "cut_u3_b2_at5", "hdr_tree_first_l3", "hdr_tree_first_void", "edr_refill_cap16_len16", "edr_refill_cap16_len5"],
  "C04": ["hdr_flat_trunc", "hdr_flat_full", "edr_refill_cap16_len16", "edr_first_fill_cap16_len8", "edr_refill_cap8_len16", "edr_first_fill_cap0_len1", "edr_refill_cap16_len5",
          "edr_refill_cap16_len16_at_6_8", "edr_refill_cap8_len16_at_4_8", "chunk_u2_b1_1x7", "chunk_u2_b1_2_3_2", "chunk_u2_b1_cap0", "chunk_u2_b1_cap1", "chunk_u2_b1_pause",
          "slice_u2_b1_cap0", "rn_eof_noclose_2", "hdr_refill_buf4_per1_cap16", "hdr_refill_buf8_per1_cap24"],
